@@ -1,0 +1,47 @@
+//go:build verif
+
+package replicator
+
+// VerifState is a snapshot of the replicator's bookkeeping, read under the
+// replicator's own locks. Only built with the `verif` tag.
+type VerifState struct {
+	Queued     int
+	Added      int
+	Fetching   int
+	Fetched    int
+	Buffered   int
+	InProgress int64
+}
+
+// Idle reports whether no replication work is pending.
+func (s VerifState) Idle() bool {
+	return s.Queued == 0 && s.Added == 0 && s.Fetching == 0 && s.Buffered == 0 && s.InProgress == 0
+}
+
+// VerifStater is implemented by the replicator when built with `verif`.
+type VerifStater interface {
+	VerifState() VerifState
+}
+
+func (r *replicator) VerifState() VerifState {
+	r.muProcess.RLock()
+	defer r.muProcess.RUnlock()
+
+	st := VerifState{Queued: r.queue.Len(), InProgress: r.taskInProgress}
+	for _, s := range r.tasks {
+		switch s {
+		case stateAdded:
+			st.Added++
+		case stateFetching:
+			st.Fetching++
+		case stateFetched:
+			st.Fetched++
+		}
+	}
+
+	r.muBuffer.Lock()
+	st.Buffered = len(r.buffer)
+	r.muBuffer.Unlock()
+
+	return st
+}
